@@ -2517,7 +2517,13 @@ int case_compare (parse_node_t ** c1, parse_node_t ** c2) {
   if ((*c2)->kind == NODE_DEFAULT)
     return 1;
 
-  return (int)((*c1)->r.number - (*c2)->r.number);
+  /* the labels are 64 bit numbers: their difference fits neither an int nor,
+   * always, an int64_t */
+  if ((*c1)->r.number < (*c2)->r.number)
+    return -1;
+  if ((*c1)->r.number > (*c2)->r.number)
+    return 1;
+  return 0;
 }
 
 int string_case_compare (parse_node_t ** c1, parse_node_t ** c2) {
@@ -2546,7 +2552,7 @@ int string_case_compare (parse_node_t ** c1, parse_node_t ** c2) {
 void prepare_cases (parse_node_t * pn, size_t start) {
   parse_node_t **ce_start, **ce_end, **ce;
   size_t end;
-  int last_key, this_key;
+  int64_t last_key, this_key, first_key;
   int direct = 1;
 
   ce_start = (parse_node_t **) & mem_block[A_CASES].block[start];
@@ -2580,17 +2586,18 @@ void prepare_cases (parse_node_t * pn, size_t start) {
       ce++;
       (*(ce - 1))->l.expr = *ce;
     }
+  first_key = (*ce)->r.number;
   if ((*ce)->v.expr)
     {
-      last_key = (int)(*ce)->v.expr->r.number;
+      last_key = (*ce)->v.expr->r.number;
       direct = 0;
     }
   else
-    last_key = (int)(*ce)->r.number;
+    last_key = (*ce)->r.number;
   ce++;
   while (ce < ce_end)
     {
-      this_key = (int)(*ce)->r.number;
+      this_key = (*ce)->r.number;
       if (pn->kind == NODE_SWITCH_RANGES && this_key <= last_key)
         {
           char buf[1024];
@@ -2640,18 +2647,21 @@ void prepare_cases (parse_node_t * pn, size_t start) {
       (*(ce - 1))->l.expr = *ce;
       if ((*ce)->v.expr)
         {
-          last_key = (int)(*ce)->v.expr->r.number;
+          last_key = (*ce)->v.expr->r.number;
           direct = 0;
         }
       else
         {
-          if (last_key + 1 != this_key)
+          if (last_key == INT64_MAX || last_key + 1 != this_key)
             direct = 0;
           last_key = this_key;
         }
       ce++;
     }
   (*(ce_end - 1))->l.expr = 0;
+  /* the lookup table format keeps its lowest label in 32 bits */
+  if (first_key < INT_MIN || last_key > INT_MAX)
+    direct = 0;
   if (direct && pn->kind == NODE_SWITCH_NUMBERS)
     pn->kind = NODE_SWITCH_DIRECT;
   pn->v.expr = *(ce_start);
